@@ -493,6 +493,15 @@ def rf32(run):
     with_out = calls + ['MIR_VA_ARG', 'MIR_BSTART']
     fixed = calls + ['MIR_ALLOCA', 'MIR_BSTART', 'MIR_BEND', 'MIR_VA_START', 'MIR_VA_ARG', 'MIR_VA_END']
     hoist = fixed + ['MIR_VA_BLOCK_ARG', 'MIR_DIV', 'MIR_DIVS', 'MIR_UDIV', 'MIR_UDIVS', 'MIR_MOD', 'MIR_MODS', 'MIR_UMOD', 'MIR_UMODS', 'MIR_RET', 'MIR_JRET']
+    # overflow-flag producers stay next to the branch that reads their flags
+    uni_ = frozenset(v for nm, v in gen.enum('MIR_insn_code_t'))
+    ovf_ = preds.true_set('MIR_overflow_insn_code_p', uni_)
+    if not ovf_:
+        raise F.AnalysisBroken('MIR_overflow_insn_code_p not evaluable')
+    byv_ = {}
+    for nm, v in gen.enum('MIR_insn_code_t'):
+        byv_.setdefault(v, nm)
+    hoist = hoist + sorted(byv_[v] for v in ovf_)
 
     def first_false_guard(f):
         for st in F.kids(f.body):
@@ -823,4 +832,100 @@ def rf53(run):
             run.violation(rule, f, 'detection of lref items', 'lref_p is set from `%s->item_type`, but `%s` is advanced over a whole data '
                           'section by load_bss_data_section: an lref item that continues a section started by another data item is never '
                           'seen, link_module_lrefs is skipped and the label slot is never filled' % (var, var), line=a['l'])
+    run.min_instances(rule, 1)
+
+
+
+# ---------------------------------------------------------------------------------------------
+# RF54: addr elimination only for full-width stores; RF55: memory availability killed by every store of a block
+# ---------------------------------------------------------------------------------------------
+
+def rf54(run):
+    from lib import miniexec as MX
+    rule = 'RF54'
+    run.rule(rule, 'collect_addr_uses (decides whether `addr q, p` can be eliminated by turning memory accesses through q into register '
+                   'moves): over register type {i64, f, d, ld} x memory type x {load, store}, a store through the address makes the addr '
+                   'non-eliminable unless it writes the whole register (a narrow store turned into an extension would replace the whole '
+                   'register instead of a part of it); loads never do')
+    gen = run.tu('gen')
+    f = gen.func('collect_addr_uses')
+    run.functions_analysed.add(('gen', f.name))
+    tys = dict(gen.enum('MIR_type_t'))
+    modes = dict(gen.enum('MIR_op_mode_t'))
+    # the branch that handles a memory use of the address
+    site = None
+    for x in f.walk():
+        if x['k'] == 'IfStmt' and 'MIR_OP_VAR_MEM' in F.src(x['c'][0]) and 'use_op_num' in F.src(x['c'][0]):
+            site = x
+    if site is None:
+        raise F.AnalysisBroken('collect_addr_uses: the memory-use branch was not found')
+    mtkey = None
+    for y in F.walk(site['c'][1]):
+        if y['k'] == 'MemberExpr' and y['n'] == 'type' and 'var_mem' in F.src(y):
+            mtkey = F.src(y)
+    full = {'MIR_T_I64': ('MIR_T_I64', 'MIR_T_U64', 'MIR_T_P'), 'MIR_T_F': ('MIR_T_F',), 'MIR_T_D': ('MIR_T_D',), 'MIR_T_LD': ('MIR_T_LD',)}
+    mems = ['MIR_T_I8', 'MIR_T_U8', 'MIR_T_I16', 'MIR_T_U16', 'MIR_T_I32', 'MIR_T_U32', 'MIR_T_I64', 'MIR_T_U64', 'MIR_T_P', 'MIR_T_F', 'MIR_T_D', 'MIR_T_LD']
+    n = 0
+    first = None
+    for rt, fulls in full.items():
+        for mt in mems:
+            for opn in (0, 1):
+                env = {'res': 1, 'reg_type': tys[rt], 'se->use_op_num': opn, 'bb_mem_insns': 0}
+                if mtkey is not None:
+                    env[mtkey] = tys[mt]
+                env['mem_type'] = tys[mt]
+                mx = MX.MiniExec(gen)
+                try:
+                    mx.run(site['c'][1], env)
+                except F.AnalysisBroken as ex:
+                    raise F.AnalysisBroken('collect_addr_uses: %s' % ex)
+                rejected = env.get('res') == 0
+                exp = opn == 0 and mt not in fulls
+                ok = rejected == exp
+                n += 1
+                run.ob(rule, (rt, mt, opn), ok, {'register type': rt, 'memory type': mt, 'access': 'store' if opn == 0 else 'load',
+                                                'addr kept': rejected, 'required': exp} if (not ok or n % 11 == 0) else None)
+                if not ok and first is None:
+                    first = (rt, mt, opn, rejected)
+    if first:
+        rt, mt, opn, rejected = first
+        run.violation(rule, f, '%s through the address of a %s register' % ('%s store' % mt if opn == 0 else '%s load' % mt, rt),
+                      'collect_addr_uses %s an addr whose address is used by a %s %s of a %s register: %s'
+                      % ('keeps' if rejected else 'lets transform_addrs eliminate', mt, 'store' if opn == 0 else 'load', rt,
+                         'the store would be rewritten into an extension/move that replaces the whole register' if not rejected else
+                         'the elimination is only less effective'), line=site['l'])
+    run.min_instances(rule, 90)
+
+
+def rf55(run):
+    rule = 'RF55'
+    run.rule(rule, 'memory availability (GVN): the set of stores with which mem_av_trans_func kills the values available on entry of a '
+                   'block is filled by calculate_memory_availability for *every* store of the block and is not the set that '
+                   'update_mem_availability prunes (the stores still available at the block end): a store overwritten later in the '
+                   'block still kills what it aliases')
+    gen = run.tu('gen')
+    t = gen.func('mem_av_trans_func')
+    c = gen.func('calculate_memory_availability')
+    run.functions_analysed.update({('gen', t.name), ('gen', c.name)})
+    its = [F.src(F.strip(F.call_args(x)[1])) for x in t.walk() if x['k'] == 'CallExpr' and (x.get('callee') or '').startswith('bitmap_iterator_init')]
+    inner = [s_ for s_ in its if 'mem_av_in' not in s_ and '->in' not in s_]
+    if len(inner) != 1:
+        raise F.AnalysisBroken('mem_av_trans_func: the inner iteration over the killing stores was not identified (%s)' % its)
+    ks = inner[0]
+    pruned = {F.src(F.strip(F.call_args(x)[1])) for x in c.walk() if x['k'] == 'CallExpr' and x.get('callee') == 'update_mem_availability'}
+    from rf_proto import dominating_conditions
+    cfg = c.cfg
+    fills = []
+    for x in c.walk():
+        if x['k'] == 'CallExpr' and x.get('callee') == 'bitmap_set_bit_p' and F.src(F.strip(F.call_args(x)[0])) == ks:
+            conds = dominating_conditions(cfg, cfg.block_of(x), selective=True)
+            fills.append([cnd for cnd, tr in conds if 'ops[0].mode' in cnd and tr])
+    ok = ks not in pruned and any(fl for fl in fills)
+    run.ob(rule, ('kill-set',), ok, {'set iterated for killing': ks, 'pruned by update_mem_availability': sorted(pruned),
+                                    'filled for every store': bool(fills) and any(fl for fl in fills)})
+    if not ok:
+        run.violation(rule, t, 'stores that kill incoming availability', 'mem_av_trans_func kills incoming available memory values only by '
+                      'the stores in %s%s: a store that a later store of the same block made unavailable is forgotten, and a value it '
+                      'aliases stays available across the block' % (ks, ', which update_mem_availability prunes' if ks in pruned else
+                                                                   ', which is not filled for every store'), line=t.line)
     run.min_instances(rule, 1)
